@@ -14,7 +14,6 @@ Instrumentation (observation only, no behaviour change):
     still registered, orphans, in_flight) -- "the state at the moment close() is called";
   * `pool.shutdown` of both pool classes is wrapped to record when a pool was shut down and
     what it held at that moment;
-  * `cassandra.pool.time` is a creeping clock (see CreepTime).
 The four checks supply observers (`after_event`, `final_answered`, `final_shutdown`) that
 evaluate their own invariants on this record.
 """
@@ -25,7 +24,6 @@ import sys
 import sim  # noqa: F401
 from checks import _simutil as U
 from sim import wire
-from sim.vthreads import VTime
 from sim.world import seg_encode
 
 PREFIX = "SELECT k FROM t WHERE id="
@@ -34,22 +32,6 @@ ADDR = "10.0.0.1"
 TIMEOUTS = [0.3, 1.0, 5.0, None]
 ERR_ANSWERS = ["unavailable", "overloaded", "read_timeout", "write_timeout", "server_error", "invalid"]
 FAIL_ANSWERS = ["garbage", "protocol", "neglen", "close", "reset", "garbage+next", "protocol+next"]
-
-
-class CreepTime(VTime):
-    """`time` for cassandra.pool: every clock read costs one virtual microsecond.  Without it
-    HostConnection.borrow_connection spins forever in real time: a waiter woken exactly at its
-    deadline computes `remaining == 0.0` (not < 0), `Condition.wait(0)` returns at once and the
-    virtual clock never moves."""
-
-    def __init__(self, world):
-        VTime.__init__(self, world)
-        self.ticks = 0
-
-    def time(self):
-        self.world.preempt()
-        self.ticks += 1
-        return self.world.now + self.ticks * 1e-6
 
 
 def tag_of_query(q):
@@ -74,15 +56,18 @@ def _caller(depth=2):
 
 
 def _pool_caller(depth=2):
-    """the innermost frame inside cassandra/pool.py or cluster.py (skips connection.py)"""
+    """the innermost frame inside cassandra/pool.py, else the innermost one in cluster.py other than
+    connection_factory (skips connection.py)"""
     f = sys._getframe(depth)
+    fallback = None
     while f is not None:
         fn = f.f_code.co_filename.replace("\\", "/")
-        for mod in ("pool", "cluster"):
-            if fn.endswith("cassandra/%s.py" % mod):
-                return "%s.%s" % (mod, f.f_code.co_name)
+        if fn.endswith("cassandra/pool.py"):
+            return "pool.%s" % f.f_code.co_name
+        if fn.endswith("cassandra/cluster.py") and fallback is None and f.f_code.co_name != "connection_factory":
+            fallback = "cluster.%s" % f.f_code.co_name
         f = f.f_back
-    return "harness"
+    return fallback or "harness"
 
 
 class Rec(object):
@@ -169,7 +154,6 @@ class Machine(object):
         from cassandra.cluster import EXEC_PROFILE_DEFAULT, ExecutionProfile
         from cassandra.policies import ConstantReconnectionPolicy, ConvictionPolicy, HostDistance
         case, sim_, net = self.case, self.sim, self.net
-        sim_.patch.set(P, "time", CreepTime(sim_.world))
         self._wrap_shutdown(P.HostConnection)
         self._wrap_shutdown(P.HostConnectionPool)
         self.node = net.add_node(ADDR, versions=tuple(case.get("versions", (1, 2, 3, 4, 5))))
@@ -543,7 +527,7 @@ class Machine(object):
             o.after_event(self, "after drain")
             o.final_answered(self)
         if not self.session_down and self.case.get("end") == "session":
-            self.shutdown_session()
+            self.sim.spawn(self.session.shutdown)
             self.sim.settle()
         self.sim.call(self.cluster.shutdown)
         self.sim.advance(self.node.connect_delay + 6.0)
@@ -591,30 +575,15 @@ class Observer(object):
 
 
 # ------------------------------------------------------------------ strategies
-def s_events(st, profile):
-    """event strategy; `profile` shifts the weights (c09: timeouts/late answers, c10: failures,
-    c12/c13: replacement, shutdown)"""
-    send = st.tuples(st.just("send"), st.integers(0, 3))
-    normal = st.tuples(st.just("answer"), st.integers(0, 7), st.sampled_from(["rows", "rows", "rows", "void"]))
-    err = st.tuples(st.just("answer"), st.integers(0, 7), st.sampled_from(ERR_ANSWERS))
-    drop = st.tuples(st.just("answer"), st.integers(0, 7), st.just("drop"))
-    fail = st.tuples(st.just("answer"), st.integers(0, 7), st.sampled_from(FAIL_ANSWERS))
-    adv = st.tuples(st.just("advance"), st.sampled_from([0.05, 0.35, 0.35, 0.75, 1.1, 2.5, 6.0, 11.0]))
-    kill = st.tuples(st.just("kill"), st.integers(0, 3), st.sampled_from(["close", "reset", "explicit"]))
-    refuse = st.tuples(st.just("refuse"), st.integers(1, 2))
-    delay = st.tuples(st.just("delay"), st.sampled_from([0.0, 0.2, 0.6, 3.0]))
-    renew = st.tuples(st.just("renew"))
-    sshut = st.tuples(st.just("session_shutdown"))
-    bdead = st.tuples(st.just("borrow_dead"), st.integers(0, 2))
-    if profile == "c09":
-        alts = [send, send, send, normal, normal, normal, adv, adv, err, drop, fail, kill]
-    elif profile == "c10":
-        alts = [send, send, send, normal, adv, err, fail, fail, kill, kill]
-    elif profile == "c12":
-        alts = [send, send, send, normal, normal, adv, adv, err, fail, kill, refuse, delay, renew, sshut, bdead, drop]
-    else:  # c13
-        alts = [send, send, send, send, normal, normal, adv, adv, adv, delay, refuse, err, kill]
-    return st.one_of(*alts)
+WEIGHTS = {
+    # kind -> weight; "fails" = how many connection failures (failing answers + kills) a history may contain
+    "c09": dict(send=7, normal=6, adv_short=4, adv_long=1, err=1, drop=1, fail=1, kill=1, fails=[0, 0, 0, 1, 1, 2]),
+    "c10": dict(send=7, normal=2, adv_short=2, adv_long=0, err=1, drop=0, fail=3, kill=2, fails=[1, 1, 2, 3]),
+    "c12": dict(send=7, normal=4, adv_short=3, adv_long=2, err=1, drop=1, fail=1, kill=1, refuse=1, delay=1, renew=1,
+                sshut=1, bdead=1, fails=[0, 1, 1, 2, 3]),
+    "c13": dict(send=8, normal=4, adv_short=6, adv_long=1, err=1, drop=0, fail=1, kill=1, refuse=1, delay=1,
+                fails=[0, 0, 1]),
+}
 
 
 def s_poolcfg(st):
@@ -628,20 +597,84 @@ def s_poolcfg(st):
     ])
 
 
-def s_case(st, profile, gran, pvs, max_events=24, extra=None):
+def s_history(st, draw, profile, n, fail_kinds=None):
+    """a list of events drawn against a rough model of the world (how many requests are probably
+    outstanding), so that answers mostly have something to answer and failures are budgeted"""
+    W = WEIGHTS[profile]
+    bag = []
+    for k, w in W.items():
+        if k != "fails":
+            bag.extend([k] * int(w))
+    fails = draw(st.sampled_from(W["fails"]))
+    events = []
+    out = 0
+    down = False
+    for _ in range(n):
+        k = draw(st.sampled_from(bag))
+        if k in ("normal", "err", "drop", "fail") and out == 0:
+            k = "send"
+        if k in ("fail", "kill"):
+            if fails <= 0:
+                k = "send"
+            else:
+                fails -= 1
+        if k == "send":
+            events.append(["send", draw(st.sampled_from([0, 0, 0, 1, 1, 2, 3]))])
+            out += 0 if down else 1
+        elif k == "normal":
+            events.append(["answer", draw(st.integers(0, out - 1)), draw(st.sampled_from(["rows", "rows", "rows", "void"]))])
+            out -= 1
+        elif k == "err":
+            events.append(["answer", draw(st.integers(0, out - 1)), draw(st.sampled_from(ERR_ANSWERS))])
+        elif k == "drop":
+            events.append(["answer", draw(st.integers(0, out - 1)), "drop"])
+            out -= 1
+        elif k == "fail":
+            events.append(["answer", draw(st.integers(0, out - 1)), draw(st.sampled_from(fail_kinds or FAIL_ANSWERS))])
+            out = 0
+        elif k == "kill":
+            events.append(["kill", draw(st.integers(0, 2)), draw(st.sampled_from(["close", "reset", "explicit"]))])
+            out = 0
+        elif k == "adv_short":
+            events.append(["advance", draw(st.sampled_from([0.05, 0.35, 0.35, 0.75, 1.1]))])
+        elif k == "adv_long":
+            events.append(["advance", draw(st.sampled_from([2.5, 6.0, 11.0]))])
+        elif k == "refuse":
+            events.append(["refuse", draw(st.integers(1, 2))])
+        elif k == "delay":
+            events.append(["delay", draw(st.sampled_from([0.0, 0.2, 0.6, 3.0]))])
+        elif k == "renew":
+            events.append(["renew"])
+        elif k == "sshut":
+            events.append(["session_shutdown"])
+            down = True
+        elif k == "bdead":
+            events.append(["borrow_dead", draw(st.integers(0, 2))])
+    return events
+
+
+def s_case(st, profile, gran, pvs, max_events=30, extra=None, mifs=(2, 3, 3, 4, 4, 5, 8), thrs=(1, 2, 2, 3, 100),
+           fail_kinds=None):
     dec = st.tuples(st.sampled_from(["retry", "retry", "rethrow", "ignore", "next_host"]), st.just(None))
-    d = {
-        "pv": st.sampled_from(pvs),
-        "mif": st.sampled_from([2, 3, 3, 4, 4, 5, 8]),
-        "thr": st.sampled_from([1, 2, 2, 3, 100]),
-        "convict": st.sampled_from([True, False, False]),
-        "delay": st.sampled_from([0.0, 0.0, 0.2, 0.6]),
-        "poolcfg": s_poolcfg(st),
-        "decisions": st.lists(dec, max_size=4),
-        "events": st.lists(s_events(st, profile), max_size=max_events),
-        "end": st.sampled_from(["cluster", "session"]),
-        "tape": st.lists(st.integers(0, 3), max_size=40 if gran == "locks" else 10),
-        "gran": st.just(gran),
-    }
-    d.update(extra or {})
-    return st.fixed_dictionaries(d)
+
+    @st.composite
+    def build(draw):
+        case = {
+            "pv": draw(st.sampled_from(pvs)),
+            "mif": draw(st.sampled_from(mifs)),
+            "thr": draw(st.sampled_from(thrs)),
+            "convict": draw(st.sampled_from([True, False, False])),
+            "delay": draw(st.sampled_from([0.0, 0.0, 0.2, 0.6])),
+            "poolcfg": draw(s_poolcfg(st)),
+            "decisions": [list(d) for d in draw(st.lists(dec, max_size=4))],
+            "end": draw(st.sampled_from(["cluster", "session"])),
+            "gran": gran,
+        }
+        for k, v in (extra or {}).items():
+            case[k] = draw(v)
+        if "events" not in case:
+            n = draw(st.integers(3, max_events))
+            case["events"] = s_history(st, draw, profile, n, fail_kinds)
+        case["tape"] = draw(st.lists(st.integers(0, 3), max_size=40 if gran == "locks" else 10))
+        return case
+    return build()
